@@ -123,6 +123,10 @@ private:
             }
         }
 
+        // The operator has been moved to the probe shift above; put the user's shift back,
+        // so that the operator (and a later init()/compute() on this solver) still uses it
+        m_op.set_shift(m_sigmar, m_sigmai);
+
         Base::sort_ritzpair(sort_rule);
     }
 
